@@ -54,7 +54,7 @@ Proof. exact (C07_decoder_exact prod_mi prod_ms pieces). Qed.
    otherwise it is in the same state, and what the Reads returned followed by the bytes left in the iovec is the byte-level
    decoder's output.  With finish (Ok iff the state is BeforeChunk with a pending stuff sequence) this is decode_pieces,
    i.e. (C07_decoder_exact) the format's meaning of the concatenated input. *)
-From WP Require iovec.Geo hcobs.GeoDec hcobs.GeoDecProofs.
+From WP Require iovec.Geo iovec.GeoSink hcobs.EncSink hcobs.GeoDec hcobs.GeoDecProofs.
 Theorem C07_geo_decoder (mi ms : nat) ops st ok h g out :
   Forall GeoDecProofs.dsimple ops ->
   GeoDecProofs.gd_run mi ms DInit [] Geo.empty_iov ops = Some (st, ok, h, g, out) ->
@@ -72,6 +72,14 @@ Proof.
   intros Hs E. pose proof (GeoDecProofs.gdec_refines mi ms ops st true h g out Hs E) as H. unfold decode_pieces.
   destruct (decode_pieces_from mi ms DInit (GeoDecProofs.gdpieces ops)) as [[st' dout]|]; [|discriminate].
   destruct H as (_ & <- & <-). reflexivity.
+Qed.
+
+(* ... and for histories of decode / decode_copy / decode_read calls of less than 2^62 bytes each, no assertion of the decoder,
+   of the iovec or of the arena fires: the memory-level decoder always returns *)
+Theorem C07_geo_decoder_never_panics (mi ms : nat) ops : Forall GeoDecProofs.dsmall ops ->
+  exists r, GeoDecProofs.gd_run mi ms DInit [] Geo.empty_iov ops = Some r.
+Proof.
+  intros Hs. exact (GeoDecProofs.gd_run_no_panic mi ms ops DInit [] Geo.empty_iov (fun x => x) EncSink.s_empty Hs (GeoSink.GS_empty _) I).
 Qed.
 
 Example C07_geo_example :
@@ -100,3 +108,4 @@ Print Assumptions C07_constants.
 Print Assumptions C07_encoder_canonical_prod.
 Print Assumptions C07_geo_decoder.
 Print Assumptions C07_geo_decoder_finish.
+Print Assumptions C07_geo_decoder_never_panics.
